@@ -139,8 +139,9 @@ var cscal = map[string][]csbindT[complex128]{
 // isoCall names the configurations that fault in the assembly build (out-of-bounds loop, the process
 // dies): they are not executed here but one at a time in a process of their own (replay argument
 // "iso", see tools/props/C08.py), where the death of the process is the observation.
-//   c64.AxpyUnitaryTo, one element, y not 16-byte aligned: after the alignment step the remaining
-//   count is 0 and the kernel enters its do-while tail loop.
+//
+//	c64.AxpyUnitaryTo, one element, y not 16-byte aligned: after the alignment step the remaining
+//	count is 0 and the kernel enters its do-while tail loop.
 func isoCall[T cnum](name string, x, y []T) bool {
 	return name == "c64.AxpyUnitaryTo" && len(x) == 1 && len(y) == 1 && uintptr(unsafe.Pointer(&y[0]))%16 != 0
 }
